@@ -31,11 +31,16 @@ fn bounds(max: u8, cfg: bool, sep: bool) -> Vec<(u8, Option<u8>, Via)> {
         v.push((lo, None, Via::Static));
         if cfg && !sep {
             v.push((lo, None, Via::Configure));
+            v.push((lo, None, Via::MixedLo));
+            v.push((lo, None, Via::ConfigureNoop));
         }
         for hi in lo..=max {
             v.push((lo, Some(hi), Via::Static));
             if cfg && !sep {
                 v.push((lo, Some(hi), Via::Configure));
+                v.push((lo, Some(hi), Via::MixedLo));
+                v.push((lo, Some(hi), Via::MixedHi));
+                v.push((lo, Some(hi), Via::ConfigureNoop));
             }
             if lo == hi {
                 v.push((lo, Some(hi), Via::Exactly));
